@@ -107,3 +107,8 @@ package api
 // allow-overwrite; a generated file the project now imports as a source). It is put on the delete list only after the
 // current bundle has been asked whether it is one of its inputs.
 //@ guarded rebuild-never-deletes-an-input C17: func=rebuildImpl ; in=api ; site=builtin append ; when-arg=0:*toDelete* ; scenario=rebuild_deletes_input ; require=false:call ContainsInputFile(*)
+
+// C20 ("a Rebuild returns either a cancellation error or the complete result of one build"): a cancelled scan stops early,
+// so whatever it has logged is a TRUNCATED set of diagnostics. The caller can only tell if the cancellation error is
+// there: adding it may depend on the cancel flag alone, not on whether some other error happens to have been logged.
+//@ guarded cancellation-is-always-reported C20: func=rebuildImpl ; in=api ; site=call AddError ; when-arg=3:"The build was canceled" ; scenario=cancel_after_error ; forbid=false:call log.HasErrors()
